@@ -107,6 +107,7 @@ def rules(ctx):
         Rule("R09.f", "integer literals are materialised at their written value (shared with C09)", 20, _reuse("c09", "r09f")),
         Rule("R07.d", "operator/type combinations the checker accepts have a code-generator arm (shared with C07)", 80, _reuse("c07", "r07d")),
         Rule("R11.c", "switch dispatch wiring and tag uses (shared with C11)", 9, _reuse("c11", "r11c")),
+        Rule("R11.d", "variants of one enum get pairwise distinct discriminants (shared with C11)", 1, _reuse("c11", "r11d")),
         Rule("R03.a", "every jump to a scope target passes the defer unwinder (shared with C03)", 2, _reuse("c03", "r03a")),
         Rule("R03.b", "every registered jump target has a frame; unwinder semantics (shared with C03)", 4, _reuse("c03", "r03b")),
         Rule("R03.c", "LIFO; a block's defers run where its end is reached (shared with C03)", 6, _reuse("c03", "r03c")),
